@@ -499,7 +499,7 @@ fn log_reopen_under_fault(seed: u64, rep: &mut Report) {
 fn directed(seed: u64, rep: &mut Report) {
     let mut rng = Prng::new(seed);
     let reuse = rng.chance(1, 2);
-    let cfg = Cfg { memtable: *rng.pick(&[256usize, 1024]), file: 1536, block: 256, reuse, bloom_bits: 10 };
+    let cfg = Cfg { memtable: *rng.pick(&[256usize, 1024]), file: 1536, block: 256, reuse, bloom_bits: 10, share: false };
     let nkeys = rng.range(4, 14);
     let mode = rng.below(3);
     // fault-free run to count the calls of the tail (flush + compaction + reopen)
